@@ -18,7 +18,7 @@ def c01a(ctx, tu):
         why = "the dispatch function must select its candidate with exactly one selection call"
         if ok:
             a0 = finds[0]["args"][0]
-            ok = a0[:1] == ["member"] and erase(a0[1]) == "trompeloeil::expectations::active" and a0[2][:2] == ["param", 0]
+            ok = a0[:1] == ["member"] and lib.holder_field(tu, a0[1]) == "active" and lib.strip_casts(a0[2])[:2] == ["param", 0]
             why = "the candidate must be selected from the ACTIVE list of the expectations object of this mock function"
         if ok:
             # second argument: the tuple built from the call's own parameters
@@ -96,8 +96,7 @@ def c01b(ctx, tu):
         if ok:
             bid, i, e = calls[0]
             a = e["args"]
-            ok = erase(str(a[0][1])) == "trompeloeil::expectations::active" and \
-                erase(str(a[1][1])) == "trompeloeil::expectations::saturated"
+            ok = lib.holder_field(tu, str(a[0][1])) == "active" and lib.holder_field(tu, str(a[1][1])) == "saturated"
             why = "the no-match reporter must be given the active and the saturated list of this mock function"
             # it sits on the null edge and nothing but argument construction precedes it there
             guard = None
@@ -161,19 +160,20 @@ def c01b(ctx, tu):
 
 def c01c(ctx, tu):
     """who touches the saturated list / what the selection iterates"""
-    allowed = {A["dispatch"], "trompeloeil::expectations::~expectations", "trompeloeil::expectations::expectations"}
+    allowed = {A["dispatch"]} | set(c + "::~" + c.rsplit("::", 1)[-1] for c in lib.holder_classes(tu)) | \
+        set(c + "::" + c.rsplit("::", 1)[-1] for c in lib.holder_classes(tu))
     for f in tu.fns.values():
         if not f.has_body or not f.is_lib:
             continue
         for b, e in f.events():
-            if e["e"] == "member" and erase(e["field"]) == "trompeloeil::expectations::saturated":
+            if e["e"] == "member" and lib.holder_field(tu, e["field"]) == "saturated":
                 ok = f.qe in allowed
                 ctx.ob("C01.c", f.qe, ok, pattern=short_loc(e.get("loc", "")), unit=tu.name,
                        detail="" if ok else "%s accesses the saturated-expectation list; only the dispatch function "
                        "(for the no-match report and the saturation step) and mock destruction/move may" % f.qe)
     for fn in tu.need(A["find"], 5):
         # the selection function touches no list other than its parameter
-        other = [e for b, e in fn.events() if e["e"] == "member" and "expectations<" in e["field"]]
+        other = [e for b, e in fn.events() if e["e"] == "member" and lib.holder_field(tu, e["field"])]
         ctx.ob("C01.c", A["find"], not other, pattern=fn.pat, unit=tu.name, inst=fn.q,
                detail="" if not other else "the selection function reaches for a list other than the one it was given")
     # in the dispatch function the saturated list goes only to the no-match reporter and to run_actions
